@@ -12,7 +12,8 @@ META = {
                  "built by StreamContext::from(JSON) and on the enabled-only container the search/export code builds, and "
                  "filter_as_streams through real std::sync::mpsc channels (filter list from JSON, from a DLF file in which every "
                  "filter carries the full element set, or from a reduced DLF file in which later filters omit elements of "
-                 "earlier ones); "
+                 "earlier ones; for every set without an enabled positive/negative filter and every 10th (25th) other set also with "
+                 "the filter on its own thread and a producer that pauses between the first messages); "
                  "observations that differ from TLC's prediction, a random sample of the others and seeded random larger "
                  "sets/streams are validated by TLC against the contract FilterSetTrace.tla",
     "design_ref": "DESIGN.md section 6, C12",
@@ -166,8 +167,12 @@ def check(ctx):
     trace = ctx.path("trace.ndjson")
     nrand = 400 if quick else 5000
     info = drive(binp, ["--tables", ctx.path("tables.json"), "--scenarios", scn, "--seed", str(ctx.seed), "--random", str(nrand),
-                        "--sample", "120" if quick else "600", "--max-len", "40" if quick else "200"], trace)
+                        "--sample", "120" if quick else "600", "--paced-every", "10" if quick else "25", "--paced-random", "30" if quick else "100", "--max-len", "40" if quick else "200"], trace)
     st = info["stats"]
+    paths["paced_producer_runs_inert_only_sets"] = st.get("paced_runs_inert_only_sets", 0)
+    paths["paced_producer_runs_active_sets"] = st.get("paced_runs_active_sets", 0)
+    if not paths["paced_producer_runs_inert_only_sets"] or not paths["paced_producer_runs_active_sets"]:
+        raise c.ToolError("vacuity: no filter_as_streams run with a paced producer (inert-only sets / active sets)")
     paths["dlf_files_minimal_filter_after_fuller"] = st.get("stream_filters_from_dlf_minimal_later_filter_omits_elements", 0)
     paths["dlf_files_full_element_set"] = st.get("stream_filters_from_dlf_full", 0)
     if not paths["dlf_files_minimal_filter_after_fuller"] or not paths["dlf_files_full_element_set"]:
